@@ -188,9 +188,11 @@ def parse_spec(path):
             fn.loops[loop]["decreases"] = text
         elif name == "closure":
             fn.closures[int(arg.strip())] = btext.strip()
-        elif name == "proof":
-            m = re.match(r'(before|after)\s+"(.*)"\s*$', arg.strip())
-            if m:
+        elif name in ("proof", "ghost"):
+            m = re.match(r'(before|after-block|after)\s+"(.*)"\s*$', arg.strip())
+            if m and name == "ghost":
+                fn.proofs.append(("raw-" + m.group(1), m.group(2), btext))
+            elif m:
                 fn.proofs.append((m.group(1), m.group(2), btext))
             elif arg.strip() in ("end", "start"):
                 fn.proofs.append((arg.strip(), None, btext))
